@@ -39,7 +39,7 @@ var ruleQueryDiscipline = &core.Rule{ID: "R10.4", Min: 8,
 					continue
 				}
 				bo, ok := iff.Cond.(*ssa.BinOp)
-				if !ok || !core.IsConstInt(bo.Y, -1) || (bo.Op != token.NEQ && bo.Op != token.EQL) {
+				if !ok || !isNoMatch(bo.Y) || (bo.Op != token.NEQ && bo.Op != token.EQL) {
 					continue
 				}
 				cands := []ssa.Value{bo.X}
@@ -109,7 +109,7 @@ var ruleQueryDiscipline = &core.Rule{ID: "R10.4", Min: 8,
 					hit := retOf(r.Body.Succs[0])
 					miss := r.Body.Succs[1]
 					done := retOf(r.Done)
-					if elemPath && hit != nil && hit.Results[0] == r.Index && miss == r.Header && done != nil && core.IsConstInt(done.Results[0], -1) {
+					if elemPath && hit != nil && isHitOf(hit.Results[0], r) && miss == r.Header && done != nil && isNoMatch(done.Results[0]) && noMatchAgrees(hit.Results[0], done.Results[0]) {
 						okA = true
 						// B: the equality helper
 						if eq := call.Call.StaticCallee(); eq != nil && core.InMod(eq) {
@@ -142,7 +142,7 @@ var ruleQueryDiscipline = &core.Rule{ID: "R10.4", Min: 8,
 			if iff == nil {
 				continue
 			}
-			if bo, ok := iff.Cond.(*ssa.BinOp); ok && core.IsConstInt(bo.Y, -1) && (bo.Op == token.NEQ || bo.Op == token.EQL) {
+			if bo, ok := iff.Cond.(*ssa.BinOp); ok && isNoMatch(bo.Y) && (bo.Op == token.NEQ || bo.Op == token.EQL) {
 				if v := bo.X; flowsFrom(v, matchCall) {
 					judge, matched = iff, v
 				}
@@ -168,7 +168,7 @@ var ruleQueryDiscipline = &core.Rule{ID: "R10.4", Min: 8,
 						sat = true
 					}
 				}
-				if !core.IsConstInt(e, -1) || !sat {
+				if !isNoMatch(e) || !sat {
 					okC = false
 				}
 			}
@@ -260,10 +260,8 @@ var ruleQueryDiscipline = &core.Rule{ID: "R10.4", Min: 8,
 				if sl, ok := a.(*ssa.Slice); ok && sl.X == ssa.Value(obj.Params[1]) && valueSpan(sl, valCall) {
 					jh.valParam = h.Params[i]
 				}
-				if ld, ok := a.(*ssa.UnOp); ok && ld.Op == token.MUL {
-					if ia, ok := ld.X.(*ssa.IndexAddr); ok && ia.X == qsArg && ia.Index == matched {
-						okQ = true
-					}
+				if isMatchedQuery(a, qsArg, matched) {
+					okQ = true
 				}
 			}
 			if jh.valParam != nil && okQ {
@@ -322,10 +320,8 @@ var ruleQueryDiscipline = &core.Rule{ID: "R10.4", Min: 8,
 									if sl, ok := a.(*ssa.Slice); ok && sl.X == ssa.Value(obj.Params[1]) && valueSpan(sl, valCall) {
 										ri = i
 									}
-									if ld, ok := a.(*ssa.UnOp); ok && ld.Op == token.MUL {
-										if ia, ok := ld.X.(*ssa.IndexAddr); ok && ia.X == qsArg && ia.Index == matched {
-											qi = i
-										}
+									if isMatchedQuery(a, qsArg, matched) {
+										qi = i
 									}
 								}
 								if qi >= 0 && ri >= 0 {
@@ -399,6 +395,46 @@ var ruleQueryDiscipline = &core.Rule{ID: "R10.4", Min: 8,
 		s.Check(okVals, obj.Name()+": every accepted value is compared", c.Pos(judge.Pos()), "range over all accepted values of the matched query", "the judgement does not range over all accepted values of the matched query")
 	}}
 
+// isNoMatch: the matcher's "no query matches" answer: index -1, or a nil query pointer.
+func isNoMatch(v ssa.Value) bool {
+	return core.IsConstInt(v, -1) || core.IsNilConst(v)
+}
+
+// isHitOf: the matcher's answer for the query the range r is at: its index, or its address.
+func isHitOf(v ssa.Value, r fde.RangeElem) bool {
+	if v == r.Index {
+		return true
+	}
+	if ia, ok := v.(*ssa.IndexAddr); ok && r.ElemAddr != nil {
+		return ia == r.ElemAddr || (ia.X == r.ElemAddr.X && ia.Index == r.Index)
+	}
+	return false
+}
+
+// noMatchAgrees: an index goes with -1, an address with nil.
+func noMatchAgrees(hit, none ssa.Value) bool {
+	if _, isAddr := hit.(*ssa.IndexAddr); isAddr {
+		return core.IsNilConst(none)
+	}
+	return core.IsConstInt(none, -1)
+}
+
+// isMatchedQuery: a is the matched query handed on: qs[matched], the matched pointer, or what it points to.
+func isMatchedQuery(a, qsArg, matched ssa.Value) bool {
+	if a == matched && !core.IsInteger(matched.Type()) {
+		return true
+	}
+	if ld, ok := a.(*ssa.UnOp); ok && ld.Op == token.MUL {
+		if ld.X == matched {
+			return true
+		}
+		if ia, ok := ld.X.(*ssa.IndexAddr); ok && ia.X == qsArg && ia.Index == matched {
+			return true
+		}
+	}
+	return false
+}
+
 // flowsFrom: v is call or a phi one of whose edges is call.
 func flowsFrom(v ssa.Value, call *ssa.Call) bool {
 	if v == ssa.Value(call) {
@@ -466,7 +502,7 @@ func inlinePathEq(matcher *ssa.Function, r fde.RangeElem, isPath func(ssa.Value)
 		return false, "paths of different length are not skipped: a query path would match as a prefix of a deeper path (look-alike keys at other depths)"
 	}
 	done := retOf(r.Done)
-	if done == nil || !core.IsConstInt(done.Results[0], -1) {
+	if done == nil || !isNoMatch(done.Results[0]) {
 		return false, "the matcher does not answer -1 when no query matches"
 	}
 	for _, ranged := range []ssa.Value{want, cur} {
@@ -519,7 +555,7 @@ func inlinePathEq(matcher *ssa.Function, r fde.RangeElem, isPath func(ssa.Value)
 				same, differ = differ, same
 			}
 			hit := retOf(r2.Done)
-			if same == r2.Header && differ == r.Header && hit != nil && hit.Results[0] == r.Index {
+			if same == r2.Header && differ == r.Header && hit != nil && isHitOf(hit.Results[0], r) && noMatchAgrees(hit.Results[0], done.Results[0]) {
 				return true, ""
 			}
 			return false, "a query is skipped or selected for a reason other than equality of its path with the current path (wrong result on hit / miss of the segment comparison)"
